@@ -2008,12 +2008,10 @@ def mnemo_to_att(name, args, asm_format):
         ]:
         if name in att_mnemo_table[table]:
             if asm_format.endswith('objdump'):
-                # If no imm argument and not ptr, then the size of args is implicit
-                has_imm = [ is_imm(a) for a in args ]
-                if not True in has_imm:
-                    return name
-                has_add = [ is_address(a) for a in args ]
-                if not True in has_add:
+                # The size of args is implicit when a register operand (other
+                # than a shift count) gives it; 'dec (%eax)' needs its suffix
+                has_reg = [ is_reg(a) for a in args ]
+                if True in has_reg and not name in ['sal', 'sar', 'shl', 'shr', 'rol', 'ror', 'rcl', 'rcr']:
                     return name
             for suffix, size in att_mnemo_table[table][0].items():
                 if x86_afs.size in args[0]:
